@@ -44,7 +44,12 @@ def double_percent(case):
     return any(isinstance(case.get(k), str) and '%%' in ''.join(case[k].split('"')[::2]) for k in ('text', 'export', 'export_text'))
 
 
-SIGNATURES = {'newline_join': newline_text, 'sign_run': sign_run, 'double_percent': double_percent}
+def blank_listing(case):
+    """the two exports differ only in blank cells that one of them lists explicitly (as '#EMPTY')"""
+    return case.get('kind') == 'exports-differ' and bool(case.get('only_blank_listings'))
+
+
+SIGNATURES = {'newline_join': newline_text, 'sign_run': sign_run, 'double_percent': double_percent, 'blank_listing': blank_listing}
 
 
 def new_run():
@@ -104,9 +109,11 @@ def roundtrip(run, m, case, nontrivial, dist):
             break
     if s1 != s2:
         dd1, dd2 = json.loads(s1), json.loads(s2)
-        k = [k for k in set(dd1) | set(dd2) if dd1.get(k) != dd2.get(k)][0]
+        diff = [k for k in set(dd1) | set(dd2) if dd1.get(k) != dd2.get(k)]
+        k = sorted(diff)[0]
+        only_blank = all({dd1.get(x), dd2.get(x)} == {None, '#EMPTY'} for x in diff)
         run.violation('second export differs from the first at %s: %r vs %r' % (k, dd1.get(k), dd2.get(k)),
-                      dict(case, node=k, export_text=dd1.get(k), reexport_text=dd2.get(k)))
+                      dict(case, node=k, export_text=dd1.get(k), reexport_text=dd2.get(k), kind='exports-differ', only_blank_listings=only_blank))
 
 
 def check(run):
@@ -154,6 +161,7 @@ def check(run):
             ws['C5'] = '=IFERROR(B4,"e")&A6'
             ws['C6'] = rnd.choice(['=UNKNOWNFUNC(1)+1', '=NoSuchName*2', '=_xlfn.FOO(B1)', "='Missing Sheet'!A1+1", '=#REF!+1', '=B1'])
             ws['D1'] = ArrayFormula('D1:D3', '=B1:B3*2')
+            ws['C7'] = rnd.choice(['=IF(B1>100,1,)', '=IF(B1>100,,2)+COUNTA(1,)', '=COUNTA(B1,,)', '=IF(B3>100,1,)&"x"'])   # empty arguments keep their position
             ws2['A1'] = rnd.choice([10, 0.5])
             ws2['A2'] = "=%s!B1+RATE" % q(names[0])
             ws2['A3'] = '=SUM(%s!A:A)' % q(names[1]) if False else '=A1&%s!A1' % q(names[0])
@@ -206,7 +214,17 @@ def check(run):
             run.violation('the exported text %r parses back to %r' % ('=' + e1, e2), case)
         req.append('parse ' + enc('=' + e1))
         pend.append((e1, case))
+        req.append('parse ' + enc(text))           # the model's rendering of the original text is the export
+        pend.append((e1, dict(case, compared='model rendering of the original text')))
     # known-finding witnesses
+    try:
+        wd = json.load(open(os.path.join(common.VERIF, 'known_witnesses', 'c09_blank_listing.json')))
+        m1 = ExcelModel().from_dict(wd); m1.calculate(); x1 = m1.to_dict()
+        m2 = ExcelModel().from_dict(json.loads(json.dumps(x1, default=str))); m2.calculate(); x2 = m2.to_dict()
+        grown = sorted(set(x2) - set(x1))
+        run.replay_witness('export-blank-listing', bool(grown) and all(x2[g] == '#EMPTY' for g in grown), {'witness': 'known_witnesses/c09_blank_listing.json', 'listed_only_by_second_export': grown})
+    except Exception as ex:
+        run.replay_witness('export-blank-listing', False, {'witness': 'raised ' + type(ex).__name__})
     e1 = expr_of('=(A1%)%')
     run.replay_witness('double-percent', e1 == 'A1%%' and expr_of('=' + e1) is None, {'witness': '=(A1%)%', 'export': e1})
     e1 = expr_of('=-(-A1)')
